@@ -103,4 +103,104 @@ theorem rfc3394_roundtrip {E D : Bytes → Bytes} (h : BlockInv E D) (p : Bytes)
   rw [this]
   simp [hflat]
 
+
+/-! ### RFC 5649 (CKM_AES_KEY_WRAP_PAD) -/
+
+/-- the wrapping function with ANY 8-byte initial value is undone by the unwrapping function -/
+theorem kw_core {E D : Bytes → Bytes} (h : BlockInv E D) (iv q : Bytes) (hiv : iv.length = 8) (h8 : q.length % 8 = 0) (hq : 8 ≤ q.length) :
+    let w := kwW E iv (chunks 8 q)
+    kwWinv D w.1 w.2 = (iv, chunks 8 q) ∧ w.1.length = 8 ∧ w.2.flatten.length = q.length ∧ (∀ x ∈ w.2, x.length = 8) := by
+  have hall := chunks_all_len 8 (by decide) q.length q (Nat.le_refl _) h8
+  have hflat := flatten_chunks 8 (by decide) q.length q (Nat.le_refl _)
+  have hnpos : 0 < (chunks 8 q).length := by
+    apply List.length_pos_iff.mpr
+    intro he
+    rw [he] at hflat
+    simp at hflat
+    rw [hflat] at hq; simp at hq
+  have hwf : KwWF (chunks 8 q).length (iv, chunks 8 q) := ⟨hiv, rfl, hall⟩
+  have hfold := kw_fold_inv h (chunks 8 q).length hnpos (kwTicks (chunks 8 q).length) (iv, chunks 8 q) hwf
+  unfold kwW
+  generalize hres : (kwTicks (chunks 8 q).length).foldl (kwStep E (chunks 8 q).length) (iv, chunks 8 q) = res at hfold
+  obtain ⟨a, r⟩ := res
+  have hw := hfold.2
+  have hrl : r.length = (chunks 8 q).length := hw.2.1
+  have e1 : ∀ (l : List Bytes), (∀ x ∈ l, x.length = 8) → l.flatten.length = 8 * l.length := by
+    intro l
+    induction l with
+    | nil => intro _; rfl
+    | cons x xs ih => intro hx; simp only [List.flatten_cons, List.length_append, List.length_cons]; rw [hx x (by simp), ih (fun y hy => hx y (by simp [hy]))]; omega
+  refine ⟨?_, hw.1, ?_, hw.2.2⟩
+  · unfold kwWinv
+    dsimp only
+    rw [hrl]
+    exact hfold.1
+  · dsimp only
+    rw [e1 r hw.2.2, hrl, ← e1 (chunks 8 q) hall, hflat]
+
+theorem zeroPad8_length_mod (p : Bytes) : (zeroPad8 p).length % 8 = 0 := by
+  simp only [zeroPad8, List.length_append, List.length_replicate]; omega
+
+theorem zeroPad8_length_bounds (p : Bytes) : p.length ≤ (zeroPad8 p).length ∧ (zeroPad8 p).length < p.length + 8 := by
+  simp only [zeroPad8, List.length_append, List.length_replicate]; omega
+
+theorem zeroPad8_take (p : Bytes) : (zeroPad8 p).take p.length = p := by simp [zeroPad8]
+
+theorem zeroPad8_drop_zero (p : Bytes) : ((zeroPad8 p).drop p.length).all (· == 0) = true := by
+  simp [zeroPad8, List.all_replicate]
+
+theorem nat32_decode (n : Nat) (h : n < 2 ^ 32) : (nat32Bytes n).foldl (fun acc b => acc * 256 + b.toNat) 0 = n := by
+  simp only [nat32Bytes, List.foldl_cons, List.foldl_nil, UInt8.toNat_ofNat']
+  omega
+
+/-- **RFC 5649**: `unwrap (wrap P) = P` for every non-empty plaintext shorter than 2^32 bytes, over every block function with a left inverse on 16-byte blocks
+    (the padded length, the alternative initial value with its length field, the one-block special case and the zero padding check included) -/
+theorem rfc5649_roundtrip {E D : Bytes → Bytes} (h : BlockInv E D) (p : Bytes) (h0 : 0 < p.length) (h32 : p.length < 2 ^ 32) :
+    rfc5649Unwrap D (rfc5649Wrap E p) = some p := by
+  have hm := zeroPad8_length_mod p
+  have hb := zeroPad8_length_bounds p
+  have haiv : ([0xA6, 0x59, 0x59, 0xA6] ++ nat32Bytes p.length : Bytes).length = 8 := rfl
+  -- what the common tail of the unwrap makes of (aiv, padded)
+  have tail : ∀ (a body : Bytes), a = [0xA6, 0x59, 0x59, 0xA6] ++ nat32Bytes p.length → body = zeroPad8 p →
+      (if a.take 4 != [0xA6, 0x59, 0x59, 0xA6] then none else
+        let mli := (a.drop 4).foldl (fun acc b => acc * 256 + b.toNat) 0
+        if mli > body.length || mli + 8 ≤ body.length || mli == 0 then none
+        else if (body.drop mli).all (· == 0) then some (body.take mli) else none) = some p := by
+    intro a body ha hbody
+    subst ha hbody
+    have ht : ([0xA6, 0x59, 0x59, 0xA6] ++ nat32Bytes p.length : Bytes).take 4 = [0xA6, 0x59, 0x59, 0xA6] := rfl
+    have hd : ([0xA6, 0x59, 0x59, 0xA6] ++ nat32Bytes p.length : Bytes).drop 4 = nat32Bytes p.length := rfl
+    simp only [ht, hd, nat32_decode _ h32, bne_self_eq_false, Bool.false_eq_true, if_false]
+    have hp : p ≠ [] := by intro e; simp [e] at h0
+    have c : (decide (p.length > (zeroPad8 p).length) || decide (p.length + 8 ≤ (zeroPad8 p).length) || (p.length == 0)) = false := by
+      simp [hp]; omega
+    simp only [c, Bool.false_eq_true, if_false, zeroPad8_drop_zero, if_true, zeroPad8_take]
+  unfold rfc5649Wrap
+  by_cases h8 : (zeroPad8 p).length = 8
+  · -- one block: a single application of the block function
+    have hin : (([0xA6, 0x59, 0x59, 0xA6] ++ nat32Bytes p.length : Bytes) ++ zeroPad8 p).length = 16 := by rw [List.length_append, haiv, h8]
+    have hlen := h.len _ hin
+    simp only [h8, beq_self_eq_true, if_true]
+    unfold rfc5649Unwrap
+    have c1 : (decide ((E (([0xA6, 0x59, 0x59, 0xA6] ++ nat32Bytes p.length : Bytes) ++ zeroPad8 p)).length < 16) ||
+        ((E (([0xA6, 0x59, 0x59, 0xA6] ++ nat32Bytes p.length : Bytes) ++ zeroPad8 p)).length % 8 != 0)) = false := by rw [hlen]; decide
+    simp only [c1, Bool.false_eq_true, if_false, hlen, beq_self_eq_true, if_true, h.inv _ hin]
+    exact tail _ _ (List.take_left' haiv) (List.drop_left' haiv)
+  · have h16 : 16 ≤ (zeroPad8 p).length := by omega
+    have hne : ((zeroPad8 p).length == 8) = false := by simpa using h8
+    simp only [hne, Bool.false_eq_true, if_false]
+    have core := kw_core h ([0xA6, 0x59, 0x59, 0xA6] ++ nat32Bytes p.length) (zeroPad8 p) haiv hm (by omega)
+    generalize hw : kwW E ([0xA6, 0x59, 0x59, 0xA6] ++ nat32Bytes p.length) (chunks 8 (zeroPad8 p)) = w at core
+    obtain ⟨a, r⟩ := w
+    obtain ⟨hinv, hal, hfl, hall⟩ := core
+    dsimp only at hinv hal hfl hall ⊢
+    unfold rfc5649Unwrap
+    have hlen : (a ++ r.flatten).length = 8 + (zeroPad8 p).length := by simp [hal, hfl]
+    have c1 : (decide ((a ++ r.flatten).length < 16) || ((a ++ r.flatten).length % 8 != 0)) = false := by rw [hlen]; simp; omega
+    have c2 : ((a ++ r.flatten).length == 16) = false := by rw [hlen]; simp; omega
+    simp only [c1, c2, Bool.false_eq_true, if_false]
+    rw [List.take_left' hal, List.drop_left' hal, chunks_flatten 8 (by decide) r hall, hinv]
+    dsimp only
+    exact tail _ _ rfl (flatten_chunks 8 (by decide) _ _ (Nat.le_refl _))
+
 end Shm.Crypto
